@@ -1,11 +1,11 @@
 SPECIFICATION Spec
 CONSTANTS
-  S = 5
+  S = 7
   Abis <- AbisLP64
   Cfgs <- Cfgs3
-  Types <- TypesImg
+  Types <- TypesOne
   Pub = FALSE
-  MaxK = 1
-  HiK = 1
+  MaxK = 0
+  HiK = 0
   Steps = FALSE
 INVARIANT NeverDeviates
